@@ -78,6 +78,17 @@ def step (_ : Unit) (ts : List String) : Unit × String :=
       -- safety oracle op: the implementation side prints `ok` unless a response leaks a file from outside the root
       | some _ => "ok"
       | none => "bad-op"
+    | ["fmap", h] => match unhex h with
+      | some t =>
+        let d := [71, 69, 84, 32] ++ t ++ [32, 72, 84, 84, 80, 47, 49, 46, 49, 13, 10, 13, 10]
+        match read { inp := d } with
+        | .ok (q, s) =>
+          if s.err != 0 || s.closed || q.method.length == 0 || q.path.length == 0 || q.proto.length == 0 then "status=none"
+          else
+            let r := serveFileStatus q.path
+            s!"status={r.1} len={r.2}"
+        | .error f => showFault f
+      | none => "bad-op"
     | ["url", h] => match unhex h with
       | some d => match parseUrl d with
         | .ok u => s!"proto={brep u.protocol} host={brep u.host} port={u.port} path={brep u.path}"
